@@ -518,6 +518,11 @@ def main(argv):
     for k in range(6 if quick else 60):
         grp, inl = GG.gen(rng)
         st.front(grp, "well-formed-groups", ("rust", "python"))
+    # types of size zero (an empty struct) in every position: own PRNG stream
+    drng = random.Random(a.seed * 101 + 31)
+    for k in range(2 if quick else 12):
+        for text in GD.degenerate(drng):
+            st.front(text, "degenerate-sizes", ())
     # 2. ill-formed: one rule-violating edit per analyzer rule
     for _ in range(1 if quick else 6):
         for body, code in GI.cases(rng):
